@@ -107,7 +107,9 @@ Save ==
     /\ Step([cont_estimate            |-> Cont(E.fid, E.before),
              C12_data_changed_only_by_own_calls |-> ContD(E.fid, E.dig0),
              cont_file                |-> E.gen = file[E.path].gen + 1,
-             C03_save_leaves_frame    |-> E.after = E.before /\ E.dig1 = E.dig0 /\ E.axes_same /\ E.meta_same], E.fid, E.after)
+             \* what the file is compared with is the frame the caller holds: writing it moves no axis and no pixel
+             \* (to float32 precision, the precision C03 speaks of)
+             C03_save_leaves_frame    |-> E.axes_same /\ E.pix32_same], E.fid, E.after)
     /\ file' = IF bad' = {} THEN [file EXCEPT ![E.path] = [gen |-> E.gen, sig |-> IF E.st = "ok" THEN E.sig ELSE NoSig]] ELSE file
 
 Copy ==
